@@ -154,12 +154,8 @@ def c03_runs(tier):
         runs.append(McRun(BIN, 'resize_work', dict(n=n, path=path, r=r, gate=gate), bound=bound, mode=mode, opts=opts, budget=budget))
 
     if quick:
-        for path in C03_PATHS:
-            for r in ('1', '0', '3'):
-                add(2, path, r, 0, 1)  # free-running race
-            for r in ('0', '2'):
-                add(1, path, r, 0, 1)
-        # directed: the whole resize script at the g-th user-code hook inside the submission call
+        # directed first (one execution each): the whole resize script at the g-th user-code hook inside the
+        # submission call
         for path in ('tb', 'pf'):
             for r in ('1', '0', '1.3'):
                 for g in (1, 3):
@@ -167,6 +163,13 @@ def c03_runs(tier):
         for path in ('s', 'ts', 'cs', 'as'):
             for r in ('1', '0'):
                 add(2, path, r, 2, 0)
+        # free-running race
+        for path in C03_PATHS:
+            for r in ('1', '0', '3'):
+                add(2, path, r, 0, 1)
+        for path in C03_PATHS:
+            for r in ('0', '2'):
+                add(1, path, r, 0, 1)
     else:
         for n in (1, 2):
             for path in C03_PATHS:
